@@ -45,7 +45,8 @@ def selftest(prop, spec, k=60, seed=7):
     vcheck.ensure_classes()
     binpath, _ = vcheck.cargo_build(spec["bin"], "release")
     trace = os.path.join(wdir, "trace.ndjson")
-    vcheck.record(binpath, "quick", seed, trace, extra=spec.get("record_args", {}).get("quick"))
+    env = spec["pre"](prop, "quick", seed, wdir).get("env", {}) if "pre" in spec else {}
+    vcheck.record(binpath, "quick", seed, trace, extra=spec.get("record_args", {}).get("quick"), env=env)
     lines = open(trace).read().splitlines()
     rnd = random.Random(seed)
     n = len(lines)
